@@ -88,3 +88,64 @@ From AM Require Gen.OutputWiring.
 Theorem C05_output_wiring_from_source : Gen.OutputWiring.output_wiring_ok = true.
 Proof. vm_compute. reflexivity. Qed.
 Print Assumptions C05_output_wiring_from_source.
+
+(* ---------- what the ingester hands over is what the processor's entry point processes ----------
+   Gen/EntryMetrics.v is REGENERATED on every run from SshdProcessorer.ProcessSshdLogEntry, the method the daemon calls
+   for every line on its ONE long-lived processor: the body is a single call of ProcessEntry on a fresh per-line
+   configuration whose result is returned; message and PID token are sm.Message / sm.PID UNCHANGED; the context is the
+   caller's context parameter itself (no derived deadline: the hand-off ends only by delivery or by the caller's
+   cancellation); login channel, event writer, metrics, node name and machine id are the processor's own.  Any other
+   statement in that body (a guard with an early return, a loop, a defer, a derived context, a write to the
+   processor) is not understood by the generator, the generated file no longer type-checks and these obligations
+   re-open.  So [process c tok line wok ready] of the model is applied, once per call, to exactly the record handed over. *)
+From AM Require Import Gen.EntryMetrics Model.EntryMetricsIR Proofs.EntryMetricsTie.
+Theorem C05_entry_from_source : forall pid msg, entry_args gen_entry (pid, msg) = Some (pid, msg).
+Proof. exact entry_from_source. Qed.
+Print Assumptions C05_entry_from_source.
+
+Theorem C05_entry_context_is_callers : en_lookup "ctx" (en_config gen_entry) = Some FromCtxParam.
+Proof. exact entry_context_is_callers. Qed.
+Print Assumptions C05_entry_context_is_callers.
+
+Theorem C05_entry_single_call :
+  en_callee gen_entry = "ProcessEntry" /\ en_result_returned gen_entry = true /\
+  map fst (en_config gen_entry) = ["ctx"; "logins"; "logEntry"; "nodeName"; "machineID"; "when"; "pid"; "eventW"; "metrics"] /\
+  en_lookup "when" (en_config gen_entry) = Some FromTimeNow.
+Proof. exact entry_single_call. Qed.
+Print Assumptions C05_entry_single_call.
+
+Theorem C05_entry_inherits_processor_fields :
+  en_inherited gen_entry ["logins"; "nodeName"; "machineID"; "eventW"; "metrics"] = true.
+Proof. exact entry_inherits_processor_fields. Qed.
+Print Assumptions C05_entry_inherits_processor_fields.
+
+(* The long-lived processor (struct SshdProcessorer, NewSshdProcessor; regenerated on every run) has no field beyond
+   those the per-line configuration sets afresh for every line, is built by a single return of that struct from the
+   constructor's parameters, and is the only implementation of the entry point in its package: no state is carried
+   from one line to the next, so identical lines (sshd prints them: every wrong password on one connection) are
+   processed identically. *)
+Theorem C05_processor_keeps_no_state :
+  ct_fields gen_constructor = map fst (en_config gen_entry) /\
+  ct_entry_impls gen_constructor = ["SshdProcessorer"] /\
+  ct_result gen_constructor = "SshdProcessor" /\
+  map fst (ct_inits gen_constructor) = ["ctx"; "logins"; "nodeName"; "machineID"; "eventW"; "metrics"].
+Proof. exact processor_keeps_no_state. Qed.
+Print Assumptions C05_processor_keeps_no_state.
+
+(* ---------- the message the processor is given is the syslog line's own text ----------
+   Gen/PureFuncs.v is REGENERATED on every run by translating the Go bodies of SyslogIngester.ParseSyslogMessage and of
+   the argument preparation in SyslogIngester.Process into Gallina over executable models of the strings package
+   (Lib/GoStrings.v; None = the operation panics).  The hand-written [parse] / [process_line] of Model/Syslog.v ARE those
+   translations, for every line: the record is split at the first blank run after the PID token and nothing in the
+   message is collapsed, decoded, unescaped or otherwise rewritten on its way to the processor (a call of any function
+   the translator does not know makes the generated file ill-typed and re-opens these obligations). *)
+From AM Require Import Lib.GoStrings Gen.PureFuncs Proofs.PureFuncsTie Model.Syslog.
+Theorem C05_parse_from_source : forall e,
+  option_map entry_pair (gen_parse_syslog_message e) = Some (Syslog.parse e).
+Proof. exact parse_syslog_from_source_pair. Qed.
+Print Assumptions C05_parse_from_source.
+
+Theorem C05_process_line_from_source : forall line,
+  option_map entry_pair (gen_process_line line) = Some (process_line line).
+Proof. exact process_line_from_source. Qed.
+Print Assumptions C05_process_line_from_source.
